@@ -417,7 +417,7 @@ def extract_pflow(trace, sc, ops_obs):
     pids = {}
 
     def pid_of(opi, op):
-        key = (opi if not (sc.get('same_func') and sc.get('func_kind') != 'partial') else 'same', bool(op.get('init')), bool(op.get('exit')), op.get('worker_lifespan'),
+        key = (opi if not (sc.get('same_func') and sc.get('func_kind') not in ('partial', 'partial_kw')) else 'same', bool(op.get('init')), bool(op.get('exit')), op.get('worker_lifespan'),
                bool(op.get('progress_bar')), op.get('task_timeout'), op.get('worker_init_timeout'), op.get('worker_exit_timeout'))
         return pids.setdefault(key, len(pids))
     starts = {}
@@ -762,7 +762,7 @@ def _run(sc, S, obs):
     def mk_funcs(op, opi):
         """user functions of operation opi.  With sc['same_func'] the SAME function objects serve every operation
         (so that consecutive calls on a keep-alive pool compare equal) and read the current operation from `cur`."""
-        if sc.get('func_kind') == 'partial':
+        if sc.get('func_kind') in ('partial', 'partial_kw'):
             # every call passes functools.partial objects of the SAME three underlying functions, bound to the call they belong to:
             # different calls' functions are different (they carry different bound arguments) although they wrap the same function
             import functools
@@ -779,8 +779,20 @@ def _run(sc, S, obs):
                         finally:
                             S.cur.bound_op = prev
                     return base
-                stable['pf'] = (bind(t0), i0, e0)
+                def bind_kw(f):
+                    def base_kw(*a, tag=None, **k):
+                        prev = getattr(S.cur, 'bound_op', None)
+                        S.cur.bound_op = tag
+                        try:
+                            return f(*a, **k)
+                        finally:
+                            S.cur.bound_op = prev
+                    return base_kw
+                stable['pf'] = (bind(t0), i0, e0, bind_kw(t0))
             # (the hooks are the same plain functions for every call: only the task function is a per-call partial)
+            if sc.get('func_kind') == 'partial_kw':
+                # the calls' partials differ in a KEYWORD argument only
+                return functools.partial(stable['pf'][3], tag=opi), stable['pf'][1], stable['pf'][2]
             return functools.partial(stable['pf'][0], opi), stable['pf'][1], stable['pf'][2]
         if sc.get('same_func'):
             cur.update(op=op, opi=opi)
@@ -1108,7 +1120,8 @@ def _make_input(op, log):
     if kind == 'range':
         return range(n)
     if kind == 'gen':
-        return logged_gen(n, ek, log, op.get('gen_pause', 0.0), op.get('gen_tail', 0.0), op.get('input_raises_at'))
+        # (`gen_endless`: the input never ends by itself — the call is bounded by `iterable_len` alone)
+        return logged_gen(10 ** 9 if op.get('gen_endless') else n, ek, log, op.get('gen_pause', 0.0), op.get('gen_tail', 0.0), op.get('input_raises_at'))
     if kind == 'nd':
         return np.arange(n * 2).reshape(n, 2) * 1.0 + 0.0 if False else np.stack([np.arange(n), np.arange(n) * 2], axis=1)
     raise AssertionError(kind)
